@@ -122,6 +122,7 @@ class C02:
         rng = ctx.rng
         objs = pyside.rand_objects(rng, ctx.scale(220, 5000))
         objs += ["a" * 65537, b"b" * 70001, bytearray(b"c" * 65600), ["\u20ac" * 30000, b"d" * 66000, ("e" * 65536,)]]   # > 64 KiB payloads
+        objs += ["\u00c3\u00a9", "na\u00c3\u00afve", ["\u00e2\u0082\u00ac", "\u00c2\u00a0"], {"\u00c3\u00a9": "\u00f0\u009f\u0098\u0080"}]   # Latin-1 text whose raw bytes are valid UTF-8
         objs += [2 ** 1016, -2 ** 1016, 2 ** 2038, b"", bytearray(), [b"", bytearray(b"")], {(): 1}, {(1, (2, "a")): [1]},
                  "\ud800", ["a\udfffb"], {1: {2: {3: []}}}, [[]] * 2]
         x = [1, 2]
@@ -310,7 +311,12 @@ class C06:
     def run(self, ctx):
         rng = ctx.rng
         progs = own_corpus("C06") + sharing_programs() + long_line_programs() + short_programs(rng, ctx.scale(4, 5), sample=ctx.scale(0.25, 0.2))
+        # calls of the classes picklers name; the three callables og-rek interprets (_codecs.encode, bytes, bytearray) only in the
+        # shapes picklers write (the typed grammar has them) plus two K8 shapes
         progs += numeric_edge_dict_programs()
+        progs += [q for q in P.well_known_call_programs(tuple_args_only=True)
+                  if not any(x in q for x in (b"_codecs", b"codecs\n", b"bytes\n", b"bytearray\n", b"\x05bytes", b"\tbytearray", b"\x06codecs", b"\x07_codecs"))]
+        progs += [b"\x80\x03cbuiltins\nbytearray\n(]tR.", b"\x80\x02c__builtin__\nbytearray\n(K\x03tR."]
         nan = b"G\x7f\xf8\x00\x00\x00\x00\x00\x00"     # one NaN object used as a key twice (K6), and two NaN objects (no finding)
         progs += [b"}" + nan + b"q\x00K\x01sh\x00K\x02s.", b"(" + nan + b"q\x00K\x01h\x00K\x02d.", b"}" + nan + b"2K\x01sK\x02s.",
                   b"}" + nan + b"q\x00\x85K\x01sh\x00\x85K\x02s.", b"}" + nan + b"K\x01s" + nan + b"K\x02s."]
@@ -358,8 +364,12 @@ class C06:
                     # Go map cannot hold (the same program succeeds in PyDict mode, whose result is judged on its own line)
                     ctx.count("map-mode:key-rejected")
                     continue
+                # K8: bytearray(...) called with an argument no pickler writes (an int, a list of ints): CPython evaluates it, og-rek
+                # (and its model) answer with an error
+                k8 = b"bytearray\n" in p or b"\tbytearray" in p
+                k8 = k8 and g == "ERR other" and l == "ERR other" and o.startswith("OK ") and " A" in " " + o[3:]
                 ctx.violate("Decode failed where CPython's unpickler succeeds", line[:3000], "OK " + V.render(want_t)[:300], g[:300],
-                            known="K1" if k1 else None)
+                            known="K1" if k1 else "K8" if k8 else None)
                 continue
             got_t = V.parse(norm_py(g[3:].rsplit(" ", 1)[0], su))
             ok = equiv(want_t, got_t) if cfg[0] == "1" else (V.render(want_t) == V.render(got_t) or equiv(want_t, got_t))
@@ -589,8 +599,8 @@ def persid_not_ascii(v, p):
 
 class C01:
     prop = "C01"
-    lean_module = "Ogorek.Props.C01Pvm"
-    theorems = ["Ogorek.C01_pvm_table", "Ogorek.C01_pvm_table_bin", "Ogorek.C01_pvm_table_hook", "Ogorek.C01_C03_agree", "Ogorek.pt_val", "Ogorek.pyAssignAll_rep", "Ogorek.pyUtf8Valid_of_valid",
+    lean_module = "Ogorek.Props.C03R"
+    theorems = ["Ogorek.C01_pvm_table", "Ogorek.C01_pvm_table_bin", "Ogorek.C01_pvm_table_reflect", "Ogorek.C01_pvm_table_hook", "Ogorek.C01_C03_agree", "Ogorek.pt_val", "Ogorek.pyAssignAll_rep", "Ogorek.pyUtf8Valid_of_valid",
                 "Ogorek.C01_K3_pvm", "Ogorek.C01_K5_pvm", "Ogorek.C01_int_forms", "Ogorek.C01_bytes_latin1", "Ogorek.C03_int",
                 "Ogorek.C12_reject", "Ogorek.C01_K3_witness"]
     trusted_base = TB_PY + ["Ogorek/Pvm.lean as a model of CPython's pickle._Unpickler with classes and persistent ids kept symbolic: hand-written "
